@@ -435,8 +435,12 @@ func (sc *Scenario) gwFile() string {
 	if sc.OtherField {
 		fmt.Fprintf(&b, "%s,%s,%s\n", "998", FmtDate(sc.Start, sc.DateFormat), "7.5")
 	}
-	for _, p := range sc.GWSeries {
+	for i, p := range sc.GWSeries {
 		fmt.Fprintf(&b, "%s,%s,%s\n", sc.Soil.ID, FmtDate(p.D, sc.DateFormat), fmtG(p.Level))
+		if sc.OtherField && i%2 == 0 {
+			// a file sorted by date holds the rows of several soils interleaved
+			fmt.Fprintf(&b, "%s,%s,%s\n", "998", FmtDate(p.D, sc.DateFormat), fmtG(p.Level+3.3))
+		}
 	}
 	return b.String()
 }
